@@ -423,16 +423,17 @@ def trace_signature(trace, i):
   shape = ev["args"].get("f", "")
   return dict(action=ev["a"], via="trace", enqueue="enqueue" in types,
               table=any(x["t"] == "output" and x["n"] == 0xfff9 for l in lists for x in l),
-              odd_l4=str(shape).endswith("_odd"), cfi=shape == "t_cfi", first_frag=shape in FIRST_FRAGS,
+              odd_l4=str(shape).endswith("_odd"), cfi=shape == "t_cfi", first_frag=shape in FIRST_FRAGS, options="opt" in str(shape),
               ecn=str(shape).endswith("_ecn") and "set_nw_tos" in types,
               observed=("exception:" + ev["obs"].get("exc", "?")) if not ev["wf"] else "rejected")
 
 
 SHAPES_FREE = ["u_tcp", "t_tcp", "u_udp", "t_udp", "u_udp_ecn", "u_udp0", "u_big", "u_icmp", "t_icmp", "u_ipx",
                "u_tcp_odd", "u_udp_odd", "u_icmp_odd", "t_cfi", "u_frag1", "t_frag1t", "u_frag2", "u_arp", "t_arp", "u_oth",
-               "bpdu"]
+               "bpdu", "u_udp_ipopt", "t_tcp_opts", "u_tcp_tcpopt", "u_tcp_eolopt", "u_tcp_opts_odd", "u_icmp_ipopt",
+               "t_ipx_ipopt", "u_frag2_ipopt", "u_frag1_ipopt"]
 BITS = fr.MODEL_BITS
-FIRST_FRAGS = ("u_frag1", "t_frag1t")
+FIRST_FRAGS = ("u_frag1", "t_frag1t", "u_frag1_ipopt")
 
 
 def nw_rewrite(acts):
